@@ -268,6 +268,64 @@ def check_footer(ctx):
               to.name, site(to, rb[2]), "the index block is read only after a valid footer", "index block read without a valid footer")
 
 
+def check_read_options_forwarded(ctx):
+    """The caller's read options (verify_checksums above all) reach the block
+    reads: a function that receives `const ldb_readopt_t *` hands that same
+    pointer to every callee that takes one."""
+    from ..rules import value_source
+    P = ctx.P
+    isopt = lambda t: "ldb_readopt_t" in t and "*" in t
+    n = 0
+    for f in P.all_functions:
+        mine = [p["n"] for p in f.params if isopt(p["t"])]
+        if len(mine) != 1:
+            continue
+        for b, i, e in f.events("call"):
+            cal = e.get("f")
+            callee = P.resolve(cal, f) if cal else None
+            if callee is None:
+                continue
+            for k, p in enumerate(callee.params):
+                if not isopt(p["t"]) or k >= len(e.get("a", ())):
+                    continue
+                n += 1
+                got = key(value_source(f, strip_casts(e["a"][k])))
+                ctx.check(got == mine[0], "T2-read-options-forwarded", "%s>%s@%s" % (f.name, cal, e["l"].split(":")[1]), f.name, site(f, e),
+                          "%s passes its caller's read options on to %s" % (f.name, cal),
+                          "%s calls %s with read options `%s` instead of its caller's `%s`: verify_checksums / snapshot of the caller are lost"
+                          % (f.name, cal, got, mine[0]), subject="%s>%s" % (f.name, cal))
+    ctx.require(n >= 12, "only %d forwarding sites of read options found" % n)
+
+
+def check_filter_name_match(ctx):
+    """A table's filter block is interpreted only by the policy that built
+    it: the metaindex entry found by the seek is used only when its key
+    equals "filter.<name of the reader's policy>" (a seek lands on the first
+    entry at or after the target, which may be another policy's filter; its
+    bytes probed by this policy reject present keys)."""
+    from ..rules import value_source
+    f = ctx.fn("ldb_table_read_meta", "src/table/table.c")
+    rf = one_call(ctx, f, "ldb_table_read_filter")
+    g = xgraph(ctx.P, f)
+    eq = find_calls(f, "ldb_slice_equal")
+    names = set()
+    for b, i, e in eq:
+        for k in (0, 1):
+            a = strip_casts(e["a"][k])
+            if isinstance(a, dict) and a.get("k") == "un" and a.get("op") == "&":
+                names.add(key(value_source(f, a["x"])))
+    for b, i, e in rf:
+        atoms = g.must_at(b, i)
+        ok = holds(atoms, ("!=", CALL("ldb_slice_equal"), "0")) and "key" in names and any("key" in n and "iter" in n for n in names - {"key"})
+        ctx.check(ok, "T2-filter-name-match", "read_meta@%s" % e["l"].split(":")[1], f.name, site(f, e),
+                  "the filter block is loaded only from the metaindex entry whose key equals the reader policy's filter name",
+                  "the filter block is loaded without comparing the metaindex key with the reader policy's filter name; "
+                  "compared: %s; facts on every path: %s" % (sorted(names), fmt_atoms(atoms)))
+    sk = [e for b, i, e in f.events("call") if is_call(e, "ldb_iter_seek") or (e.get("fp") is not None and "seek" in key(e["fp"]))]
+    ctx.check(len(sk) == 1 and argkey(sk[0], 1) == "&key", "T2-filter-name-match", "seek-target", f.name, f.loc,
+              "the metaindex is sought to that same name", "metaindex seek target: %s" % [argkey(e, 1) for e in sk])
+
+
 def check_verification_switched_on(ctx):
     P = ctx.P
     ii = ctx.fn("ldb_inputiter_create", "src/version_set.c")
@@ -291,6 +349,7 @@ def check_verification_switched_on(ctx):
             rb = one_call(ctx, f, "ldb_read_block")[0][2]
             ctx.check(argkey(rb, 2) == "&opt", "T2-verify-on", fn_name + ":passed", f.name, site(f, rb), "the read uses these options",
                       "block read uses %s" % argkey(rb, 2))
+    check_read_options_forwarded(ctx)
     # user reads: verify_checksums of the caller's options reaches ldb_read_block unchanged
     br = ctx.fn("ldb_table_blockreader", "src/table/table.c")
     for b, i, e in one_call(ctx, br, "ldb_read_block"):
